@@ -229,6 +229,19 @@ impl Gen<'_> {
                 let l = self.rng.pick(&self.lexicals).clone();
                 (mk(format!("print('never'); var {l};"), budgeted, self.rng), "gdi-redeclaration")
             }
+            12 if self.rng.chance(1, 2) => {
+                // GlobalDeclarationInstantiation / EvalDeclarationInstantiation fail at run time
+                // (after the frame exists): a restricted global cannot be redeclared
+                let g = *self.rng.pick(&["NaN", "Infinity", "undefined"]);
+                let src = match self.rng.below(5) {
+                    0 => format!("function {g}(){{}}"),
+                    1 => format!("print('never'); function {g}(){{ return 1; }} var ok = 1;"),
+                    2 => format!("(0,eval)('function {g}(){{}}');"),
+                    3 => format!("eval('function {g}(){{}}');"),
+                    _ => format!("(function(){{ return (0,eval)('var q; function {g}(){{}}'); }})();"),
+                };
+                (mk(src, budgeted, self.rng), "declaration-instantiation-fails")
+            }
             12 => (Op::Call { func: "thrower".into(), args: vec![k as i32] }, "call-throw"),
             13 => (Op::Call { func: "Cls".into(), args: vec![1] }, "call-class-without-new"),
             14 => (Op::Construct { func: "K".into(), args: vec![-1] }, "construct-throw"),
